@@ -203,6 +203,7 @@ func recordMain(args []string) {
 	corpus := fs.String("corpus", "", "testdata directory of the repository (its expressions are recorded too)")
 	mode := fs.String("mode", "general", "general | sort | unicode | mutate | typed")
 	maxLen := fs.Int("maxlen", 200, "largest array in sort mode")
+	inPath := fs.String("in", "", "mode reexec: a replay file holding a recorded event")
 	fs.Parse(args)
 	f, err := os.Create(*outPath)
 	if err != nil {
@@ -271,6 +272,37 @@ func recordMain(args []string) {
 		}
 	}
 	g := &gen{rand.New(rand.NewSource(*seed))}
+	if *mode == "reexec" {
+		// bin/check <ID> --replay <file> for a rejected trace event: the recorded (expr, doc) is run through the
+		// real Search again and the fresh event is written for TLC
+		raw, err := os.ReadFile(*inPath)
+		if err != nil {
+			fmt.Fprintln(os.Stderr, err)
+			os.Exit(2)
+		}
+		d := json.NewDecoder(strings.NewReader(string(raw)))
+		d.UseNumber()
+		var rep struct {
+			Case struct {
+				Expr any    `json:"expr"`
+				Doc  any    `json:"doc"`
+				ID   string `json:"id"`
+			} `json:"case"`
+		}
+		if err := d.Decode(&rep); err != nil {
+			fmt.Fprintln(os.Stderr, err)
+			os.Exit(2)
+		}
+		text, err1 := cpsToString(rep.Case.Expr)
+		docTV, err2 := fromJSON(rep.Case.Doc)
+		if err1 != nil || err2 != nil {
+			fmt.Fprintln(os.Stderr, err1, err2)
+			os.Exit(2)
+		}
+		emit(rep.Case.ID, text, (&builder{}).build(docTV))
+		fmt.Printf("{\"written\":%d,\"skipped\":%d,\"panics\":%d}\n", written, skipped, panics)
+		return
+	}
 	switch *mode {
 	case "sort":
 		// arrays far beyond what TLC enumerates (13..200 elements, many ties)
